@@ -135,11 +135,22 @@ def concretize(grid, events, fam, offset=Fraction(0), extra_bpms=()):
 
 
 def dec(fr):
-    """Exact decimal string of a fraction with a finite decimal expansion."""
-    d = Decimal(fr.numerator) / Decimal(fr.denominator)
-    s = format(d, "f")
-    assert Fraction(s) == fr, (fr, s)
-    return s
+    """Exact decimal string of a fraction with a finite decimal expansion (integer arithmetic only: independent of the decimal context)."""
+    fr = Fraction(fr)
+    sign = "-" if fr < 0 else ""
+    n, d = abs(fr.numerator), fr.denominator
+    digits = 0
+    while d % 10 == 0 or (10 ** digits * n) % d != 0:
+        digits += 1
+        if digits > 60:
+            raise AssertionError((fr, "no finite decimal expansion"))
+        if (10 ** digits * n) % d == 0:
+            break
+    digits = max(digits, 3)
+    scaled = (10 ** digits * n) // d
+    assert Fraction(scaled, 10 ** digits) == abs(fr), fr
+    s_ = str(scaled).rjust(digits + 1, "0")
+    return f"{sign}{s_[:-digits]}.{s_[-digits:]}"
 
 
 def beat_str(b):
